@@ -156,23 +156,26 @@ class StubTx:
 def verify_flag(vm, n, n_headers):
     leaves, expected, k, branch, wire = setup(vm, n)
     height = vm.new_int('height', -3, n_headers + 3)
-    honest = vm.new_bool('header_has_this_root')
     other_root = hexlify(vm.new_bytes('other_root', 32, True)[::-1])
     vm.assume(other_root != expected)
-    roots = [expected if honest else other_root for _ in range(n_headers)]
+    # at most one stored header commits to this tree; the proof may name any block height of its own
+    root_at = vm.pick('header_with_this_root', n_headers + 1)
+    roots = [expected if i == root_at else other_root for i in range(n_headers)]
+    claimed = vm.new_int('proof_block_height', -3, n_headers + 3)
     ledger = StubLedger(StubHeaders(n_headers, roots))
     tx = StubTx(leaves[k])
     try:
-        vm.await_(ledger.maybe_verify_transaction(tx, height, {'merkle': wire, 'pos': k, 'block_height': height}))
+        vm.await_(ledger.maybe_verify_transaction(tx, height, {'merkle': wire, 'pos': k, 'block_height': claimed}))
     except Exception as e:
         return 'VIOLATION: verification raised %s (a header outside the stored range was consulted)' % type(e).__name__
     if tx.height != height:
         return 'VIOLATION: transaction height not recorded'
     in_range = 0 < height < n_headers
+    honest = height == root_at
     if tx.is_verified and not in_range:
         return 'VIOLATION: verified at a height the wallet has no header for'
     if tx.is_verified and not honest:
-        return 'VIOLATION: verified although the header has another merkle root'
+        return 'VIOLATION: verified although the header at that height has another merkle root'
     if in_range and honest and not tx.is_verified:
         return 'VIOLATION: genuine proof to the header root not accepted'
     if tx.is_verified and tx.position != k:
